@@ -5,7 +5,7 @@ from .. import env, coq, runner, gates, tables, circuits
 
 LEVEL = 'proof'
 META = dict(
-    text='Coq theorems about the reference semantics (matrix-on-axes application commutes on disjoint axes, tabulation round trip, the buffer-swapping loop of apply_unitaries returns the ordered product for every choice of in-place/buffer/fresh strategies; an operation inside one factor of a product state acts on that factor only, so a run whose operations each lie in one factor is the product of the separate runs - the split_untangled_states mode; fifteen slicing kernels incl. SWAP, ISWAP, CCZ, CCX, CSWAP, FSim, qudit Z, n-qubit diagonal and qubit-permutation kernels are the action of the documented matrices; the update rule of the classical basis-state simulator tracks the matrix action up to a phase; axis permutations commute with runs) plus, on every run, a correspondence that evaluates the reference semantics (ordered product of the proven gate matrices) inside Coq on generated circuits and compares every simulation entry point of /repo with it.',
+    text='Coq theorems about the reference semantics (matrix-on-axes application commutes on disjoint axes, tabulation round trip, the buffer-swapping loop of apply_unitaries returns the ordered product for every choice of in-place/buffer/fresh strategies; an operation inside one factor of a product state acts on that factor only, so a run whose operations each lie in one factor is the product of the separate runs - the split_untangled_states mode; fifteen slicing kernels incl. SWAP, ISWAP, CCZ, CCX, CSWAP, FSim, qudit Z, n-qubit diagonal and qubit-permutation kernels are the action of the documented matrices; the update rule of the classical basis-state simulator tracks the matrix action up to a phase; axis permutations commute with runs) plus, on every run, a correspondence that evaluates the reference semantics (ordered product of the proven gate matrices) inside Coq on generated circuits and compares every simulation entry point of /repo with it. Repeated blocks: r written-out copies of a block are the block iterated r times and the model of the one-qudit fast path of CircuitOperation._unitary_ (ordered product with the scalars of zero-qubit operations folded in, then the matrix power) acts as that many runs of the block; SwapPowGate at an odd exponent is a global phase times the exchange of the two target digits (so relabelling is exact only for phase 1). Fixed grids for every seed: special exponent x global-shift values, SWAP-only / identity-only moments read at every moment step, every set of allowed control tuples on the classical simulator, initial-state objects reused.',
     note='Trusted: Coq kernel; float instantiation of the model (PrimFloat, tolerances 1e-7 for complex128, 3e-6*sqrt(dim) for complex64); numpy itself (einsum/transpose) is modelled as linear maps, not verified; the Python adapters. The theorems are about the model of the algorithm; the entry points themselves are compared on sampled circuits.',
     technique='Rocq/Coq proof over an executable reference semantics + vm_compute correspondence against every simulator entry point',
 )
